@@ -679,6 +679,7 @@ func runC11(c *core.Ctx) core.Meta {
 
 	// ---------------- R11.4 SEND-DISCIPLINE + FIELDS ----------------
 	RunProto(c, &ProtoCfg{
+		AllEffectsAfterSend: true,
 		RuleBase: "R11.4.cp", Pkg: cpPkg, FloorSends: 4,
 		Effects: []Effect{
 			RetrieveEffect,
@@ -762,6 +763,7 @@ func runC11(c *core.Ctx) core.Meta {
 	}
 	// driver side send
 	RunProto(c, &ProtoCfg{
+		AllEffectsAfterSend: true,
 		RuleBase: "R11.4.driver", Pkg: driverPkg, FloorSends: 1,
 		Effects: []Effect{RetrieveEffect, FieldWriteEffect("requestsToSend-write", "Driver.requestsToSend")},
 		OnlyFuncs: func(name string) bool { return name == "Driver.sendToGPUs" },
